@@ -17,7 +17,7 @@ RULE = ('Hypothesis documents (profiles "full" with 4 encodings and "agnostic" w
         'equal the composition of the three single-option transformations P (C06), F (C05), T (C04/C10) of kv/xform.py '
         'applied to the aligned default extended export, in all six orders (which must also agree with each other); '
         'each single option alone must equal its own transformation; explicit-default calls must equal the omitted call '
-        'byte for byte.  An evaluation is one (document, option set); non-trivial when at least two of the three options '
+        'byte for byte; one Exporter object reused for all option sets of a document must give the same texts as dumps.  An evaluation is one (document, option set); non-trivial when at least two of the three options '
         'are non-default and each of them changes the output on its own.')
 ASSUMPTIONS = ['kv/xform.py (P, F, T) as validated by C04-C06 and C10', 'placeholders "." and "*" are interchangeable']
 
@@ -92,6 +92,7 @@ def check(case):
     types = doc['types']
     keys, evals = [], 0
     default_text = K.dumps(kdoc)
+    shared_exporter = kp.Exporter()  # one Exporter object reused for every option set of this document
     for o in case['opts']:
         enc = o['enc'] or 'kern'
         sel = cats.selected(o['inc'], o['exc'])
@@ -115,6 +116,14 @@ def check(case):
         diff = X.same(K.grid(got), renders[0])
         if diff:
             raise Bad('composition', f'dumps({tag}): {diff}\n--- source\n{text}--- got\n{got}', opts=o)
+        okw = {('kern_type' if k == 'encoding' else k): v for k, v in kw.items()}
+        try:
+            got_shared = shared_exporter.export_string(kdoc, kp.core.generic.Generic.parse_options_to_ExportOptions(**okw))
+        except Exception as e:  # noqa
+            raise Bad('shared-exporter-raised', f'Exporter.export_string({tag}) raised {e!r}', opts=o)
+        evals += 1
+        if got_shared != got:
+            raise Bad('shared-exporter', f'a reused Exporter object gives a different export for ({tag}) than kernpy.dumps\n--- dumps\n{got}--- reused Exporter\n{got_shared}', opts=o)
         if o['explicit']:
             kw2 = kwargs_for(o, kdoc, explicit=False)
             got2 = K.dumps(kdoc, **kw2)
